@@ -291,7 +291,50 @@ func (g *c04Gen) loop(depth int, scope map[string]string, colls map[string]strin
 
 func init() { streams["C04"] = runC04 }
 
+// root data that is a struct: a loop variable spelled like a Go field name (or like its json tag) shadows the
+// field inside the loop in every position - {{ }}, expressions, v-if, bound attributes - and the field is
+// visible again after the loop (direct oracle: the expected text is written down)
+type c04Page struct {
+	Title string   `json:"title"`
+	Count int      `json:"count"`
+	Tags  []string `json:"tags"`
+	Plain string
+}
+
+func c04StructRoot(r *Run) {
+	data := c04Page{Title: "Home", Count: 7, Tags: []string{"a", "b"}, Plain: "P"}
+	cases := []struct{ tpl, want string }{
+		{`<li v-for="(i, Title) in tags" v-if="Title != 'Home'" :data-k="Title + '-x'">{{ i }}:{{ Title }}</li><p>{{ Title }}</p>`, `<lidata-k="a-x">0:a</li><lidata-k="b-x">1:b</li><p>Home</p>`},
+		{`<li v-for="(i, title) in tags" v-if="title != 'Home'" :data-k="title + '-x'">{{ i }}:{{ title }}</li><p>{{ title }}</p>`, `<lidata-k="a-x">0:a</li><lidata-k="b-x">1:b</li><p>Home</p>`},
+		{`<li v-for="(Count, t) in tags" :data-k="Count + 1">{{ Count }}{{ t }}</li><p>{{ Count }}|{{ count + 1 }}</p>`, `<lidata-k="1">0a</li><lidata-k="2">1b</li><p>7|8</p>`},
+		{`<li v-for="Plain in tags" :class="{on: Plain == 'a'}">{{ Plain + '!' }}</li><p>{{ Plain }}</p>`, `<liclass="on">a!</li><li>b!</li><p>P</p>`},
+		{`<template v-for="Title in tags"><i v-if="Title == 'b'">{{ Title | upper }}</i></template><p>{{ Title + '' }}</p>`, `<i>B</i><p>Home</p>`},
+		// (attribute names are lower-cased by the HTML parser, so a <template :x> assignment can only use the tag's spelling)
+		{`<template :title="count + 1"></template><p>{{ title }}|{{ title + 1 }}</p>`, `<p>8|9</p>`},
+	}
+	for i, c := range cases {
+		var buf bytes.Buffer
+		var err error
+		func() {
+			defer func() {
+				if x := recover(); x != nil {
+					err = fmt.Errorf("PANIC %v", x)
+				}
+			}()
+			err = vuego.New().Fill(data).RenderString(context.Background(), &buf, c.tpl)
+		}()
+		got := strings.Join(strings.Fields(buf.String()), "")
+		r.Eval(fmt.Sprintf("struct-root:%d", i), true, nil)
+		r.Count("stream:struct-root(oracle only)")
+		if err != nil || got != c.want {
+			r.Fail("a loop or template variable does not shadow the root struct field of the same name in every position", map[string]string{"oracle": "struct-root-shadowing", "case": fmt.Sprint(i)},
+				map[string]any{"template": c.tpl, "data": fmt.Sprintf("%+v", data), "output": buf.String(), "expected": c.want, "err": fmt.Sprint(err)})
+		}
+	}
+}
+
 func runC04(r *Run) {
+	c04StructRoot(r)
 	r.Imports = []string{"Base.Val", "Model.Stack", "Model.Loops"}
 	r.Rule("loop nests up to depth 3 over slices and arrays of every element kind ([]any, []int, []string, [2]string, [][]any, []map, []*S1 with nil members, []S1), lengths 0..3, nil, missing and non-sequence collections, " +
 		"one- and two-variable forms, loop variables that do and do not shadow outer variables / root struct fields, per-item v-if, <template v-for>, followed or not by v-else (with whitespace or a comment in between); " +
